@@ -350,6 +350,28 @@ func procShape(fset *token.FileSet, f *ast.File) (string, []ProcCase) {
 		fd.Recv.List[0].Names[0].Name != "m" || render(fset, fd.Recv.List[0].Type) != "*MTProto" {
 		die("tryToProcessErr: expected `func (m *MTProto) tryToProcessErr(e *ErrResponseCode) error`")
 	}
+	// the equivalent guard form `if <tag> != "LIT" { return e }; <handling>` is read as the switch
+	// `switch <tag> { case "LIT": <handling>; default: return e }`
+	if len(fd.Body.List) >= 2 {
+		if ifs, ok := fd.Body.List[0].(*ast.IfStmt); ok && ifs.Init == nil && ifs.Else == nil && len(ifs.Body.List) == 1 {
+			if be, ok := ifs.Cond.(*ast.BinaryExpr); ok && be.Op == token.NEQ {
+				if bl, ok := be.Y.(*ast.BasicLit); ok && bl.Kind == token.STRING {
+					lit, _ := strconv.Unquote(bl.Value)
+					mk := func(labels []string, stmts []ast.Stmt) ProcCase {
+						pc := ProcCase{Labels: labels, Steps: []string{}, Source: []string{}}
+						for _, st := range stmts {
+							pc.Source = append(pc.Source, render(fset, st))
+						}
+						if st := classify(pc.Source); st != nil {
+							pc.Steps = st
+						}
+						return pc
+					}
+					return render(fset, be.X), []ProcCase{mk([]string{lit}, fd.Body.List[1:]), mk([]string{}, ifs.Body.List)}
+				}
+			}
+		}
+	}
 	if len(fd.Body.List) != 1 {
 		return "not-a-single-switch", nil
 	}
